@@ -242,6 +242,20 @@ def check(prog, rep):
 
     from . import shared
     shared.rule_patch_isolation(prog, rep, "R8")
+    # ingestion: the structural conditions under which every input atom becomes exactly one model atom (shared with C07)
+    from . import c07
+    c07.rule_identity(prog, rep)       # rule id R5 of C07 -> listed here as C03.R5i
+    rep.rules[-1].rid = "R9"
+    for ob in rep.rules[-1].obs:
+        ob.rule = "R9"
+    c07.rule_first_wins(prog, rep)
+    rep.rules[-1].rid = "R10"
+    for ob in rep.rules[-1].obs:
+        ob.rule = "R10"
+    c07.rule_every_record_kept(prog, rep)
+    rep.rules[-1].rid = "R11"
+    for ob in rep.rules[-1].obs:
+        ob.rule = "R11"
     # ------------------------------------------------------------------ R7
     r7 = rep.rule("R7", "no template or patch defines two atoms of one name", floor=50)
     for name, ref in list(t.aa.items()) + list(t.na.items()):
